@@ -540,6 +540,18 @@ theorem export_override (hc : CryptoLaws c) (s : ObjState) (hg : Good c s) (ov :
   rw [exportOv_same_length c s ov r hne hlen]
   exact ⟨_, romLoad_export hc (withCert s ov) (good_withCert hg ov) wf dev obs hd r⟩
 
+/- FULL-STRENGTH clause (false on the current tree, finding C05-override-length, proposed_fixes/C05-4.diff):
+     theorem export_override_any_length … (wf : StateWF c (withCert s ov)) (hd : DevOK c dev (withCert s ov) obs) :
+       ∃ ob, romLoad c dev (exportOv c s (some ov) r).2 = .ok ⟨hdrSpec (withCert s ov), s.cmds, ob⟩
+   without `hlen`.  What holds instead is `export_override` (same length) and the refusal below. -/
+
+/-- CURRENT BEHAVIOUR of `export(cert_block=ov)` when the override has ANOTHER length than the object's own certificate block:
+    `image_total_length` still counts the object's own block, the header does not describe block 0, and NO device accepts the file -/
+theorem export_override_other_length_refused (hc : CryptoLaws c) (s : ObjState) (hg : Good c s) (wf : StateWF c s)
+    (ov : Sb31.Bytes) (r : Rand) (hne : ov ≠ []) (hlen : ov.length ≠ s.cfg.cert.length) (dev : Dev) (res : RomOk) :
+    romLoad c dev (exportOv c s (some ov) r).2 ≠ .ok res :=
+  exportOv_other_length_refused hc s hg wf ov r hne hlen dev res
+
 /-- EVERY COMMAND CLASS IS COVERED, checked mechanically: the concrete command classes of commands.py (generated: descendants of
     `BaseCmd` without subclasses) are exactly the 14 classes with a generated tag, each is the class of one constructor of `Cmd`, and
     that constructor exports the tag the class passes — `cmd31_roundtrip` is stated for every `Cmd`, hence for every class -/
@@ -674,6 +686,10 @@ example : exportFull toyOps [1, 2, 3] exState none [2] = .error .spsdk ∧
 /-- the override with the object's own certificate block bytes (non-empty, same length) -/
 example : ∃ ob, romLoad toyOps exDev (exportOv toyOps exState (some exCert) [2]).2 = .ok ⟨hdrSpec exState, exCmds, ob⟩ :=
   (export_override toyLaws exState exGood exCert [2] (by decide) rfl exWF exDev [] exDevOK).2.2
+
+/-- an override one byte longer than the object's own block: refused by every device -/
+example (res : RomOk) : romLoad toyOps exDev (exportOv toyOps exState (some (exCert ++ [0])) [2]).2 ≠ .ok res :=
+  export_override_other_length_refused toyLaws exState exGood exWF (exCert ++ [0]) [2] (by decide) (by decide) exDev res
 
 /-- why the constructor must refuse partial fuse words: the encoder stores `len(data) // 4`, so five data bytes
     would not come back (the loader reads one word) -/
